@@ -77,3 +77,21 @@ def replay_file(pid, path, seed):
         return 1
     core.log("%s: replay file %s does not reproduce a violation on the current tree" % (pid, path))
     return 0
+
+
+# ------------------------------------------------------------------------------------------- C05
+@check("C05", rule="one case = (operation, input, pattern); non-trivial = pattern non-empty or whitespace op; "
+                    "every case is replayed through every pattern kind of the string:: and slice::bytes_* twins")
+def c05(run):
+    q = run.tier == "quick"
+    out = vec("C05-StripTrim.ndjson")
+    run.mc("MC_StripTrim", "StripTrim.quick.cfg" if q else "StripTrim.thorough.cfg", env={"OUT": out},
+           need_actions=("Start", "StripCheck", "StripStep", "TrimOuter", "TrimInner", "SpaceStep"),
+           heap="8g", timeout=3000)
+    run.sample_file(out)
+    run.replay([out], "StripTrim vectors")
+    run.record_and_validate("StripTrim", "Trace_StripTrim", "Trace_StripTrim.cfg",
+                            n_files=4 if q else 16, n_events=5000 if q else 20000)
+    run.assumptions += [BOUNDED, STD_GUARD,
+                        "trim_matches (both ends) is compared only where trimming start-then-end and end-then-start "
+                        "agree (std offers it only for such patterns)"]
